@@ -1,2 +1,176 @@
-import Rink.Model.Eval
-/-! property theorems: under construction -/
+import Rink.Lemmas.Trunc
+import Mathlib.Algebra.Order.AbsoluteValue.Basic
+import Mathlib.Algebra.Order.Ring.Abs
+/-!
+# C09 — Unit lists and duration breakdowns decompose without loss
+
+`decomp v us` is the numeric loop of `to_list` (`Eval.listLoop`) over the rationals:
+every unit but the last takes the truncated quotient, the last takes what is left.
+Theorems hold for every rational `v` and every list of non-zero units (any length ≥ 1);
+the sign law needs positive units, exactly as the property's wording does.
+-/
+namespace Rink.Spec
+open Rink Rink.Eval
+
+def decomp : ℚ → List ℚ → List ℚ
+  | _, [] => []
+  | v, [u] => [v / u]
+  | v, u :: u' :: us => (trunc (v / u) : ℚ) :: decomp (v - u * (trunc (v / u) : ℚ)) (u' :: us)
+
+/-- what remains after each unit of the list has taken its part -/
+def remainders : ℚ → List ℚ → List ℚ
+  | _, [] => []
+  | v, [u] => [v - u * (v / u)]
+  | v, u :: u' :: us =>
+    let r := v - u * (trunc (v / u) : ℚ)
+    r :: remainders r (u' :: us)
+
+def dot : List ℚ → List ℚ → ℚ
+  | p :: ps, u :: us => p * u + dot ps us
+  | _, _ => 0
+
+/-- the model's loop computes `decomp` (and never panics) when no unit is zero -/
+theorem listLoop_eq (v : ℚ) (us : List ℚ) (d : Dim) (h : ∀ u ∈ us, u ≠ 0) :
+    listLoop (.rational v) (us.map fun u => ⟨.rational u, d⟩) = .ok ((decomp v us).map .rational) := by
+  induction us generalizing v with
+  | nil => simp [listLoop, decomp]
+  | cons u us ih =>
+    have hu : u ≠ 0 := h u (by simp)
+    cases us with
+    | nil => simp [listLoop, decomp, Numeric.div, hu]
+    | cons u' us =>
+      have := ih (v - u * (trunc (v / u) : ℚ)) (fun x hx => h x (by simp [hx]))
+      simp only [List.map_cons] at this ⊢
+      simp only [trunc] at this
+      simp [listLoop, decomp, Numeric.divRem, hu, trunc, this]
+
+/-- **Law 1.** the parts times their units add up to the value, exactly. -/
+theorem decomp_sum (v : ℚ) (us : List ℚ) (hne : us ≠ []) (h : ∀ u ∈ us, u ≠ 0) :
+    dot (decomp v us) us = v := by
+  induction us generalizing v with
+  | nil => exact absurd rfl hne
+  | cons u us ih =>
+    have hu : u ≠ 0 := h u (by simp)
+    cases us with
+    | nil => simp [decomp, dot]; field_simp
+    | cons u' us =>
+      have := ih (v - u * (trunc (v / u) : ℚ)) (by simp) (fun x hx => h x (by simp [hx]))
+      simp only [decomp, dot] at this ⊢
+      rw [this]; ring
+
+/-- **Law 2.** every part but the last is an integer. -/
+theorem decomp_integral (v : ℚ) (us : List ℚ) :
+    ∀ p ∈ (decomp v us).dropLast, ∃ n : ℤ, p = (n : ℚ) := by
+  induction us generalizing v with
+  | nil => simp [decomp]
+  | cons u us ih =>
+    cases us with
+    | nil => simp [decomp]
+    | cons u' us =>
+      intro p hp
+      have hlen : decomp (v - u * (trunc (v / u) : ℚ)) (u' :: us) ≠ [] := by
+        cases us <;> simp [decomp]
+      simp only [decomp, List.dropLast_cons_of_ne_nil hlen, List.mem_cons] at hp
+      rcases hp with rfl | hp
+      · exact ⟨_, rfl⟩
+      · exact ih _ p hp
+
+/-- one step: the remainder is smaller in magnitude than the unit just used -/
+theorem step_remainder_lt (v u : ℚ) (hu : u ≠ 0) : |v - u * (trunc (v / u) : ℚ)| < |u| := by
+  have h1 : v - u * (trunc (v / u) : ℚ) = u * fracPart (v / u) := by
+    unfold fracPart; field_simp
+  rw [h1, abs_mul]
+  have := abs_fracPart_lt_one (v / u)
+  have hupos : 0 < |u| := abs_pos.mpr hu
+  calc |u| * |fracPart (v / u)| < |u| * 1 := by exact mul_lt_mul_of_pos_left this hupos
+    _ = |u| := by ring
+
+/-- **Law 4.** what remains after each step is smaller in magnitude than the unit just used
+(and nothing remains after the last). -/
+theorem remainders_lt (v : ℚ) (us : List ℚ) (h : ∀ u ∈ us, u ≠ 0) :
+    List.Forall₂ (fun r u => |r| < |u|) (remainders v us) us := by
+  induction us generalizing v with
+  | nil => simp [remainders]
+  | cons u us ih =>
+    have hu : u ≠ 0 := h u (by simp)
+    cases us with
+    | nil =>
+      simp only [remainders]
+      refine List.Forall₂.cons ?_ List.Forall₂.nil
+      have : v - u * (v / u) = 0 := by field_simp; ring
+      rw [this]; simpa using hu
+    | cons u' us =>
+      simp only [remainders]
+      exact List.Forall₂.cons (step_remainder_lt v u hu) (ih _ (fun x hx => h x (by simp [hx])))
+
+/-- one step with a positive unit keeps the sign of the value in both the part and the remainder -/
+theorem step_sign_nonneg (v u : ℚ) (hu : 0 < u) (hv : 0 ≤ v) :
+    0 ≤ (trunc (v / u) : ℚ) ∧ 0 ≤ v - u * (trunc (v / u) : ℚ) := by
+  have hq : 0 ≤ v / u := div_nonneg hv (le_of_lt hu)
+  constructor
+  · exact_mod_cast trunc_sign_nonneg hq
+  · have h1 : v - u * (trunc (v / u) : ℚ) = u * fracPart (v / u) := by unfold fracPart; field_simp
+    rw [h1]; exact mul_nonneg (le_of_lt hu) (fracPart_nonneg hq).1
+
+/-- **Law 3 (non-negative values).** with positive units every part is ≥ 0 when `v ≥ 0`. -/
+theorem decomp_sign_nonneg (v : ℚ) (us : List ℚ) (hpos : ∀ u ∈ us, 0 < u) (hv : 0 ≤ v) :
+    ∀ p ∈ decomp v us, 0 ≤ p := by
+  induction us generalizing v with
+  | nil => simp [decomp]
+  | cons u us ih =>
+    have hu : 0 < u := hpos u (by simp)
+    cases us with
+    | nil => simp [decomp]; exact div_nonneg hv (le_of_lt hu)
+    | cons u' us =>
+      have hs := step_sign_nonneg v u hu hv
+      intro p hp
+      simp only [decomp, List.mem_cons] at hp
+      rcases hp with rfl | hp
+      · exact hs.1
+      · exact ih _ (fun x hx => hpos x (by simp [hx])) hs.2 p (by simpa [List.mem_cons] using hp)
+
+theorem trunc_neg_div (v u : ℚ) : (trunc (-v / u) : ℚ) = -(trunc (v / u) : ℚ) := by
+  rw [neg_div, trunc_neg]; push_cast; ring
+
+theorem decomp_neg (v : ℚ) (us : List ℚ) : decomp (-v) us = (decomp v us).map (fun p => -p) := by
+  induction us generalizing v with
+  | nil => simp [decomp]
+  | cons u us ih =>
+    cases us with
+    | nil => simp [decomp, neg_div]
+    | cons u' us =>
+      simp only [decomp, List.map_cons, trunc_neg_div]
+      congr 1
+      rw [← ih]; congr 1; ring
+
+/-- **Law 3 (non-positive values).** -/
+theorem decomp_sign_nonpos (v : ℚ) (us : List ℚ) (hpos : ∀ u ∈ us, 0 < u) (hv : v ≤ 0) :
+    ∀ p ∈ decomp v us, p ≤ 0 := by
+  intro p hp
+  have h := decomp_neg (-v) us
+  rw [neg_neg] at h
+  rw [h] at hp
+  obtain ⟨q, hq, rfl⟩ := List.mem_map.mp hp
+  have := decomp_sign_nonneg (-v) us hpos (by linarith) q hq
+  linarith
+
+/-- **Refusal.** a list with a member of another dimensionality is refused … -/
+theorem toList_refuses_member (ctx : Ctx) (top : Number) (names : List String) (first : Number)
+    (rest : List Number) (hl : lookupAll ctx names = .ok (first :: rest))
+    (hm : rest.any (fun x => x.unit != first.unit) = true) :
+    toList ctx top names = .err .generic := by
+  unfold toList; rw [hl]; simp only [Outcome.bind_ok, hm, if_true]
+
+/-- … and so is a value that does not conform with the list (a conformance error). -/
+theorem toList_refuses_value (ctx : Ctx) (top : Number) (names : List String) (first : Number)
+    (rest : List Number) (hl : lookupAll ctx names = .ok (first :: rest))
+    (hm : rest.any (fun x => x.unit != first.unit) = false) (ht : top.unit ≠ first.unit) :
+    toList ctx top names = .err .conformance := by
+  unfold toList; rw [hl]; simp only [Outcome.bind_ok, hm]; simp [ht]
+
+/-! non-vacuity: `-1000 s -> minute;second` -/
+example : decomp (-1000) [60, 1] = [-16, -40] := by
+  simp [decomp, trunc]; norm_num [Int.tdiv]
+  decide +kernel
+
+end Rink.Spec
